@@ -271,6 +271,42 @@ def main():
                 add("merge", "not-concatenation", "first model extended in order", r, None)
         except Exception as e:  # noqa: BLE001
             add("merge", "merge-raises", "merged model", repr(e)[:200], None)
+    # 2b. loading is a function of the documents: it does not write into them, and a later load does not change an earlier model.
+    #     The SAME in-memory documents are loaded repeatedly (no copy): first documents with empty top-level sections (lists the merge
+    #     extends), with structures that have no extends / mixins (shared defaults), then merged with a non-empty extension.
+    for empty in ([], ["notifications"], ["requests", "notifications"], ["typeAliases", "enumerations"]):
+        a_doc = copy.deepcopy(small)
+        for k in empty:
+            a_doc[k] = []
+        b_doc = copy.deepcopy(small)
+        a0, b0 = copy.deepcopy(a_doc), copy.deepcopy(b_doc)
+        exp = copy.deepcopy(a0)
+        for k in ("requests", "notifications", "structures", "enumerations", "typeAliases"):
+            exp[k] = exp[k] + b0[k]
+        evals += 1
+        tag = "empty:" + ",".join(empty)
+        try:
+            m1 = model.create_lsp_model([a_doc, b_doc])
+            if a_doc != a0 or b_doc != b0:
+                add(f"merge|{tag}", "loading-writes-into-its-input-document", "input documents unchanged", "the first document now has " +
+                    str({k: len(a_doc[k]) for k in ("requests", "notifications", "structures", "enumerations", "typeAliases")}) + " entries; before: " +
+                    str({k: len(a0[k]) for k in ("requests", "notifications", "structures", "enumerations", "typeAliases")}), {"emptied_sections": empty})
+            r1 = lossless(exp, readback(m1))
+            if r1:
+                add(f"merge|{tag}", "not-concatenation", "first model extended in order", r1, {"emptied_sections": empty})
+            m2 = model.create_lsp_model([a_doc, b_doc])
+            r2 = lossless(exp, readback(m2))
+            if r2 or not (m1 == m2):
+                add(f"merge|{tag}", "second-load-of-the-same-documents-differs", "same model as the first load", r2 or "models compare unequal", {"emptied_sections": empty})
+            r1b = lossless(exp, readback(m1))
+            if r1b:
+                add(f"merge|{tag}", "earlier-model-changed-by-a-later-load", "the first model still reads back as first ++ second", r1b, {"emptied_sections": empty})
+            m3 = model.create_lsp_model([a_doc])
+            r3 = lossless(a0, readback(m3))
+            if r3:
+                add(f"merge|{tag}", "single-load-after-merge-differs", "the first document alone", r3, {"emptied_sections": empty})
+        except Exception as e:  # noqa: BLE001
+            add(f"merge|{tag}", "merge-raises", "merged model", repr(e)[:200], {"emptied_sections": empty})
     # 3. equality: same document equal, structurally different unequal, never raises
     for tag, d in docs:
         if not schema_valid(d):
